@@ -291,6 +291,9 @@ func (e *EvalCtx) field(x Val, f string) Val {
 						return ptr // opaque library object embedded by value: denote it by its address (ghost fields hang off it)
 					}
 					fv := e.c.load(e.p, e.heap, ptr, st.Field(i).Type())
+					if !e.inQuant && fv.K == KSlice {
+						e.c.axiom(fmt.Sprintf("(and (<= 0 %s) (<= %s %s) (< %s 4611686018427387904))", fv.Len, fv.Len, fv.Cap, fv.Cap))
+					}
 					if !e.inQuant && fv.K == KInt {
 						// every value stored in a typed field is a value of that type
 						if f := rangeFact(fv.T, st.Field(i).Type()); f != "" {
@@ -618,6 +621,16 @@ func (e *EvalCtx) call(n ECall) Val {
 		}
 		arr := e.c.heapGet(e.heap, tk+".$"+path[i+1:], g.Sort)
 		return sortVal(g.Sort, fmt.Sprintf("(select %s %s)", arr, ref))
+	case "funcid": // funcid(name): identity of the Helios function (or closure) called name in this package
+		name := exprString(n.Args[0])
+		if sl, ok := n.Args[0].(EStr); ok {
+			name = sl.V
+		}
+		fn := e.c.eng.fns[pkgDirOf(e.pkg)+"|"+name]
+		if fn == nil {
+			e.fail("funcid: no function %s", name)
+		}
+		return intVal(e.c.eng.fnID(fn))
 	case "typetag":
 		t := e.c.eng.parseType(e.pkg, exprString(n.Args[0]))
 		if t == nil {
@@ -1057,6 +1070,9 @@ func (c *FnCtx) resolveLoc(p *Path, ec *EvalCtx, loc string) (out []locTarget) {
 		c.havocAll(p)
 		return nil
 	}
+	if strings.HasPrefix(loc, "key:") { // raw heap key, e.g. key:[]*loadbalancer.Backend (all backing stores of that element type)
+		return []locTarget{{strings.TrimSpace(loc[4:]), ""}}
+	}
 	if strings.HasPrefix(loc, "mapof(") {
 		x, err := ParseExpr(loc[6 : len(loc)-1])
 		if err != nil {
@@ -1099,13 +1115,22 @@ func (c *FnCtx) resolveLoc(p *Path, ec *EvalCtx, loc string) (out []locTarget) {
 			panic(contractError{err.Error()})
 		}
 		v := ec.eval(x)
+		// a field of a struct embedded by value: climb to the enclosing object, keep the inner path
+		inner := ""
+		for v.K == KStruct && strings.Contains(head, ".") {
+			j := strings.LastIndex(head, ".")
+			inner = head[j:] + inner
+			head = head[:j]
+			x, err = ParseExpr(head)
+			if err != nil {
+				panic(contractError{err.Error()})
+			}
+			v = ec.eval(x)
+		}
 		var prefix, ref string
 		switch v.K {
 		case KPtr:
 			prefix, ref = c.addrKey(v), v.T
-			if et := derefType(v.Typ); et != nil && kindOf(et) == KStruct {
-				prefix = c.addrKey(v)
-			}
 		case KMap:
 			prefix, ref = typeKey(v.Typ), v.T
 		case KIface:
@@ -1116,6 +1141,7 @@ func (c *FnCtx) resolveLoc(p *Path, ec *EvalCtx, loc string) (out []locTarget) {
 		default:
 			panic(contractError{"modifies: " + head + " is not an object"})
 		}
+		prefix += inner
 		if f == "*" {
 			return []locTarget{{prefix, ref}}
 		}
